@@ -1,4 +1,4 @@
-from collections.abc import Callable
+from collections.abc import Callable, Sequence
 from dataclasses import dataclass
 from typing import TYPE_CHECKING, Any, ClassVar
 
@@ -7,14 +7,27 @@ from hugr.build.dfg import DfBase
 
 from guppylang_internals.ast_util import AstNode, with_loc, with_type
 from guppylang_internals.cfg.builder import tmp_vars
-from guppylang_internals.checker.core import ComptimeVariable, Context, Locals, Variable
+from guppylang_internals.checker.core import (
+    ComptimeVariable,
+    Context,
+    Globals,
+    Locals,
+    PlaceId,
+    Variable,
+)
 from guppylang_internals.checker.errors.type_errors import TypeMismatchError
 from guppylang_internals.compiler.core import CompilerContext, DFContainer
 from guppylang_internals.compiler.expr_compiler import ExprCompiler
+from guppylang_internals.definition.custom import CustomFunctionDef
 from guppylang_internals.definition.value import CallableDef
 from guppylang_internals.diagnostic import Error
 from guppylang_internals.error import GuppyComptimeError, GuppyError, exception_hook
-from guppylang_internals.nodes import PlaceNode
+from guppylang_internals.nodes import (
+    BarrierExpr,
+    GlobalCall,
+    PlaceNode,
+    StateResultExpr,
+)
 from guppylang_internals.tracing.builtins_mock import mock_builtins
 from guppylang_internals.tracing.object import GuppyObject
 from guppylang_internals.tracing.state import (
@@ -29,7 +42,13 @@ from guppylang_internals.tracing.unpacking import (
     update_packed_value,
 )
 from guppylang_internals.tracing.util import capture_guppy_errors, tracing_except_hook
-from guppylang_internals.tys.ty import FunctionType, InputFlags, type_to_row, unify
+from guppylang_internals.tys.ty import (
+    FuncInput,
+    FunctionType,
+    InputFlags,
+    type_to_row,
+    unify,
+)
 
 if TYPE_CHECKING:
     import ast
@@ -135,6 +154,31 @@ def trace_function(
     builder.set_outputs(*regular_returns, *inout_returns)
 
 
+def _borrowed_place_ids(call_node: "ast.expr", globals: Globals) -> set[PlaceId]:
+    """Returns the ids of the places that are borrowed by a checked call.
+
+    These are the places whose wire is replaced by the compiled call, see
+    `ExprCompiler._update_inout_ports`.
+    """
+    inputs: Sequence[FuncInput]
+    if isinstance(call_node, GlobalCall):
+        callee = globals[call_node.def_id]
+        assert isinstance(callee, CallableDef)
+        if isinstance(callee, CustomFunctionDef) and not callee.has_signature:
+            # Compiled with all arguments owned, see `ExprCompiler.visit_GlobalCall`
+            return set()
+        inputs = callee.ty.inputs
+    elif isinstance(call_node, BarrierExpr | StateResultExpr):
+        inputs = call_node.func_ty.inputs
+    else:
+        return set()
+    return {
+        arg.place.id
+        for inp, arg in zip(inputs, call_node.args, strict=True)
+        if InputFlags.Inout in inp.flags and isinstance(arg, PlaceNode)
+    }
+
+
 @capture_guppy_errors
 def trace_call(func: CallableDef, *args: Any) -> Any:
     """Handles calls to Guppy functions during tracing.
@@ -171,26 +215,32 @@ def trace_call(func: CallableDef, *args: Any) -> Any:
     ret_wire = ExprCompiler(state.ctx).compile(call_node, state.dfg)
 
     # Update inouts
-    # If the input types of the function aren't known, we can't check this.
-    # This is the case for functions with a custom checker and no type annotations.
     if len(func.ty.inputs) != 0:
-        for inp, arg, var in zip(func.ty.inputs, args, arg_vars, strict=True):
-            if InputFlags.Inout in inp.flags:
-                # Note that `inp.ty` could refer to bound variables in the function
-                # signature. Instead, make sure to use `var.ty` which will always be a
-                # concrete type and type checking has ensured that they unify.
-                ty = var.ty
-                inout_wire = state.dfg[var]
-                success = update_packed_value(
-                    arg, GuppyObject(ty, inout_wire), state.dfg.builder
+        borrowed = [InputFlags.Inout in inp.flags for inp in func.ty.inputs]
+    else:
+        # The definition carries no signature of its own. This is the case for functions
+        # with a custom checker and no type annotations (for example `barrier`) and for
+        # overloaded functions. Which arguments are borrowed is only known from the call
+        # that the checker has produced.
+        borrowed_ids = _borrowed_place_ids(call_node, state.globals)
+        borrowed = [var.id in borrowed_ids for var in arg_vars]
+    for is_borrowed, arg, var in zip(borrowed, args, arg_vars, strict=True):
+        if is_borrowed:
+            # Note that the input type in the signature could refer to bound variables.
+            # Instead, make sure to use `var.ty` which will always be a concrete type
+            # and type checking has ensured that they unify.
+            ty = var.ty
+            inout_wire = state.dfg[var]
+            success = update_packed_value(
+                arg, GuppyObject(ty, inout_wire), state.dfg.builder
+            )
+            if not success:
+                # This means the user has passed an object that we cannot update,
+                # e.g. calling `mem_swap(x, y)` where the inputs are plain Python
+                # objects
+                raise GuppyComptimeError(
+                    f"Cannot borrow Python object of type `{ty}` at comptime"
                 )
-                if not success:
-                    # This means the user has passed an object that we cannot update,
-                    # e.g. calling `mem_swap(x, y)` where the inputs are plain Python
-                    # objects
-                    raise GuppyComptimeError(
-                        f"Cannot borrow Python object of type `{ty}` at comptime"
-                    )
 
     ret_obj = GuppyObject(ret_ty, ret_wire)
     return unpack_guppy_object(ret_obj, state.dfg.builder)
